@@ -199,10 +199,11 @@ Proof.
     destruct S3 as [S3|[S3 S4]]; [rewrite S3; auto|rewrite S4]. split; intros; discriminate.
 Qed.
 
-Theorem no_new_stream_after_goaway c dl : ginv c -> CF.k_goaway c = true ->
+(* NewStream creates a stream only on a reachable transport *)
+Lemma new_stream_refused c dl : CF.k_mode c <> 0 ->
   forall e, In e (snd (CF.step c (CF.ONew dl))) -> CF.tag e = 0 -> CF.esid e = -1.
 Proof.
-  intros G H e. pose proof (G H) as M. unfold CF.step. cbn [CF.exec_op].
+  intros M e. unfold CF.step. cbn [CF.exec_op].
   destruct (Z.eqb_spec (CF.k_mode c) 0) as [E|E]; [contradiction|].
   destruct (CF.k_mode c =? 2).
   - cbn. intros [<-|[]] _. reflexivity.
@@ -210,28 +211,93 @@ Proof.
     destruct (S e Hin) as [[He|[]]|He]; subst e; intros; [reflexivity|discriminate].
 Qed.
 
-Fixpoint creach (c : CF.conn) (ops : list CF.op) : CF.conn :=
-  match ops with [] => c | o :: r => creach (fst (CF.step c o)) r end.
+Theorem no_new_stream_after_goaway c dl : ginv c -> CF.k_goaway c = true ->
+  forall e, In e (snd (cstep c (CO (CF.ONew dl)))) -> CF.tag e = 0 -> CF.esid e = -1.
+Proof.
+  intros G H. cbn [cstep]. unfold new_waits. rewrite H, andb_false_r.
+  apply new_stream_refused, G, H.
+Qed.
+
+(* whatever the reason the transport is not reachable (GOAWAY, GracefulClose, closed): no stream is
+   created; -1 = refused, -2 = still waiting when its context was cancelled *)
+Theorem no_new_stream_unless_reachable c dl : CF.k_mode c <> 0 ->
+  forall e, In e (snd (cstep c (CO (CF.ONew dl)))) -> CF.tag e = 0 -> CF.esid e < 0.
+Proof.
+  intros M e. cbn [cstep]. destruct (new_waits c).
+  - cbn. intros [<-|[]] _. reflexivity.
+  - intros Hin T. rewrite (new_stream_refused c dl M e Hin T). reflexivity.
+Qed.
+
+(* ---- GracefulClose ---- *)
+Lemma ginv_mode0 c : ginv c -> CF.k_mode c = 0 -> CF.k_goaway c = false.
+Proof. intros G M. destruct (CF.k_goaway c) eqn:E; [exfalso; apply (G E); exact M|reflexivity]. Qed.
+
+Lemma graceful_ledger c : ginv c ->
+  ginv (fst (graceful c)) /\ CF.k_mode (fst (graceful c)) <> 0.
+Proof.
+  intros G. unfold graceful. destruct (Z.eqb_spec (CF.k_mode c) 0) as [E|E].
+  - destruct (CF.any_active c); unfold ginv; cbn [fst CF.close_conn CF.k_mode CF.k_goaway]; split; intros; discriminate.
+  - cbn [fst]. split; [exact G|exact E].
+Qed.
+
+(* GracefulClose with a stream in flight: the transport is draining, nothing is failed, and no
+   GOAWAY has been recorded *)
+Theorem graceful_spec c : ginv c -> CF.k_mode c = 0 -> CF.any_active c = true ->
+  let r := cstep c CGraceful in
+  CF.k_mode (fst r) = 1 /\ CF.k_goaway (fst r) = false /\ CF.k_prev (fst r) = CF.k_prev c /\
+  CF.k_streams (fst r) = CF.k_streams c /\ snd r = [].
+Proof.
+  intros G M A. cbv zeta. cbn [cstep]. unfold graceful. rewrite M, A. cbn.
+  rewrite (ginv_mode0 c G M). auto.
+Qed.
+
+Lemma cstep_ledger c o : ginv c ->
+  ginv (fst (cstep c o)) /\ (CF.k_mode c <> 0 -> CF.k_mode (fst (cstep c o)) <> 0).
+Proof.
+  intros G. destruct o as [o|].
+  - assert (X : cstep c (CO o) = CF.step c o \/ cstep c (CO o) = (c, [(0, -2, 0, 0)])).
+    { destruct o; cbn [cstep]; auto. destruct (new_waits c); auto. }
+    destruct X as [X|X]; rewrite X; [apply step_ledger, G|cbn [fst]; auto].
+  - cbn [cstep]. destruct (graceful_ledger c G) as [A B]. auto.
+Qed.
+
+Fixpoint creach (c : CF.conn) (ops : list cop) : CF.conn :=
+  match ops with [] => c | o :: r => creach (fst (cstep c o)) r end.
 Lemma ginv_reach ops : forall c, ginv c -> ginv (creach c ops).
-Proof. induction ops as [|o ops IH]; intros c G; cbn; [exact G|]. apply IH, step_ledger, G. Qed.
+Proof. induction ops as [|o ops IH]; intros c G; cbn [creach]; [exact G|]. apply IH, cstep_ledger, G. Qed.
 Lemma goaway_reach ops : forall c, ginv c -> CF.k_mode c <> 0 -> CF.k_mode (creach c ops) <> 0.
 Proof.
-  induction ops as [|o ops IH]; intros c G M; cbn; [exact M|].
-  destruct (step_ledger c o G) as [G' M']. apply IH; auto.
+  induction ops as [|o ops IH]; intros c G M; cbn [creach]; [exact M|].
+  destruct (cstep_ledger c o G) as [G' M']. apply IH; auto.
+Qed.
+
+(* an accepted GOAWAY is recorded (t.goAway closed, prevGoAwayID = id) whatever the state of the
+   transport was: reachable, or already draining after a local GracefulClose *)
+Theorem goaway_recorded c id code : CF.k_mode c <> 2 -> accepted_goaway c id = true ->
+  let c' := fst (CF.step c (CF.OGoAway id code)) in
+  CF.k_goaway c' = true /\ CF.k_prev c' = id.
+Proof.
+  intros M V. cbv zeta. unfold CF.step. destruct (Z.eqb_spec (CF.k_mode c) 2); [contradiction|].
+  destruct (settle_ledger (CF.exec_op c (CF.OGoAway id code))) as (S1 & S2 & _). rewrite S1, S2.
+  destruct (goaway_exec c id code M) as [_ X]. cbv zeta in X. rewrite V in X. split; apply X.
 Qed.
 
 (* after an accepted GOAWAY the transport is never reachable again, whatever follows *)
 Theorem no_new_after_goaway c id code ops : ginv c -> CF.k_mode c <> 2 -> accepted_goaway c id = true ->
-  let c' := fst (CF.step c (CF.OGoAway id code)) in
+  let c' := fst (cstep c (CO (CF.OGoAway id code))) in
   CF.k_goaway c' = true /\ CF.k_mode (creach c' ops) <> 0.
 Proof.
   intros G M V. cbv zeta.
-  destruct (step_ledger c (CF.OGoAway id code) G) as [G' _].
-  assert (A : CF.k_goaway (fst (CF.step c (CF.OGoAway id code))) = true).
-  { unfold CF.step. destruct (Z.eqb_spec (CF.k_mode c) 2); [contradiction|].
-    destruct (settle_ledger (CF.exec_op c (CF.OGoAway id code))) as (S1 & _). rewrite S1.
-    destruct (goaway_exec c id code M) as [_ X]. cbv zeta in X. rewrite V in X. apply X. }
+  destruct (cstep_ledger c (CO (CF.OGoAway id code)) G) as [G' _].
+  cbn [cstep] in *.
+  destruct (goaway_recorded c id code M V) as [A _].
   split; [exact A|]. apply goaway_reach; auto.
+Qed.
+
+(* nor after a local GracefulClose *)
+Theorem no_new_after_graceful c ops : ginv c -> CF.k_mode (creach (fst (cstep c CGraceful)) ops) <> 0.
+Proof.
+  intros G. cbn [cstep]. destruct (graceful_ledger c G) as [A B]. apply goaway_reach; auto.
 Qed.
 
 (* a GOAWAY with a non-zero even id, or with an id above the previous GOAWAY's, is a connection
@@ -269,6 +335,30 @@ Proof.
   destruct (Z.ltb_spec 0 id); [|lia]. rewrite E. reflexivity.
 Qed.
 
+(* the same after a local GracefulClose: streams in flight, GracefulClose, the server's first
+   GOAWAY(id) (accepted: 0 or odd), then GOAWAY(id2) with id2 > id: connection error *)
+Theorem larger_after_graceful_is_error c id code id2 code2 :
+  ginv c -> CF.k_mode c = 0 -> CF.any_active c = true -> goaway_even id = false -> id < id2 ->
+  let c1 := fst (cstep c CGraceful) in
+  let c2 := fst (cstep c1 (CO (CF.OGoAway id code))) in
+  CF.k_goaway c2 = true /\ CF.k_prev c2 = id /\
+  CF.exec_op c2 (CF.OGoAway id2 code2) = CF.close_conn c2.
+Proof.
+  intros G M A Ev L. cbv zeta.
+  destruct (graceful_spec c G M A) as (M1 & G1 & _). cbv zeta in M1, G1.
+  set (c1 := fst (cstep c CGraceful)) in *. cbn [cstep].
+  assert (V : accepted_goaway c1 id = true) by (unfold accepted_goaway; rewrite Ev, G1; reflexivity).
+  assert (M1' : CF.k_mode c1 <> 2) by (rewrite M1; discriminate).
+  destruct (goaway_recorded c1 id code M1' V) as [R1 R2]. cbv zeta in R1, R2.
+  split; [exact R1|]. split; [exact R2|].
+  apply second_larger_is_error; [exact R1|rewrite R2; exact L].
+Qed.
+
+Lemma larger_after_graceful_witness :
+  run [0] [[1; 0]; [1; 0]; [30]; [1; 0]; [7; 1; 0]; [7; 3; 0]] =
+  Some [[0; 1; 0; 0]; [0; 3; 0; 0]; []; [0; -2; 0; 0]; [1; 3; 14; 1]; [1; 1; 14; 0; 8; 0; 0; 0]; []].
+Proof. vm_compute. reflexivity. Qed.
+
 (* the script GOAWAY(1), GOAWAY(3) with two streams: the second GOAWAY closes the connection
    and stream 1 ends Unavailable *)
 Lemma second_larger_witness :
@@ -279,14 +369,15 @@ Proof. vm_compute. reflexivity. Qed.
 (* ---- client bridge ---- *)
 Definition okc (c : Z * Z * bool) : bool := finding_clause (fst (fst c)) || snd c.
 
-Lemma cclause_ok c o : ginv c -> forallb okc (cclause c o (snd (CF.step c o))) = true.
+Lemma cclause_ok c o : ginv c -> forallb okc (cclause c o (snd (cstep c o))) = true.
 Proof.
-  intros G. destruct o as [dl|sid ended fs|sid size ended|sid code| |id code|sid inc| |sid|ms|sid dlen plen ended|sid val]; try reflexivity.
+  intros G. destruct o as [o|]; [|reflexivity].
+  destruct o as [dl|sid ended fs|sid size ended|sid code| |id code|sid inc| |sid|ms|sid dlen plen ended|sid val]; try reflexivity.
   - cbn [cclause forallb]. rewrite andb_true_r. unfold okc. cbn [fst snd finding_clause Z.eqb Pos.eqb orb].
     destruct (CF.k_goaway c) eqn:H; [|reflexivity]. cbn [negb orb].
     apply forallb_forall. intros e He. destruct (Z.eqb_spec (CF.tag e) 0) as [T|T]; [|reflexivity].
     rewrite (no_new_stream_after_goaway c dl G H e He T). reflexivity.
-  - cbn [cclause]. destruct (Z.eqb_spec (CF.k_mode c) 2) as [E|E]; [reflexivity|].
+  - cbn [cclause cstep]. destruct (Z.eqb_spec (CF.k_mode c) 2) as [E|E]; [reflexivity|].
     assert (EOF : accepted_goaway c id = false ->
                   has_eof (snd (CF.step c (CF.OGoAway id code))) = true).
     { intros V. unfold CF.step. destruct (Z.eqb_spec (CF.k_mode c) 2); [contradiction|].
@@ -305,11 +396,11 @@ Proof.
     rewrite B, C. destruct (Z.ltb_spec id (CF.esid e)); [reflexivity|lia].
 Qed.
 
-Lemma cclauses_run ops : forall c, ginv c -> forallb okc (cclauses c ops (CF.run_ops c ops)) = true.
+Lemma cclauses_run ops : forall c, ginv c -> forallb okc (cclauses c ops (crun_ops c ops)) = true.
 Proof.
-  induction ops as [|o ops IH]; intros c G; cbn [CF.run_ops cclauses]; [reflexivity|].
-  pose proof (cclause_ok c o G) as A. destruct (step_ledger c o G) as [G' _].
-  destruct (CF.step c o) as [c' ev] eqn:S. cbn [fst snd] in *.
+  induction ops as [|o ops IH]; intros c G; cbn [crun_ops cclauses]; [reflexivity|].
+  pose proof (cclause_ok c o G) as A. destruct (cstep_ledger c o G) as [G' _].
+  destruct (cstep c o) as [c' ev] eqn:S. cbn [fst snd] in *.
   rewrite forallb_app, A. apply IH, G'.
 Qed.
 
@@ -321,8 +412,10 @@ Record sinv (g : gstate) : Prop := {
   si_max : Forall (fun e => fst e <= g_max g) (g_active g);
   si_maxlt : 0 <= g_max g < 2147483647 }.
 
-Lemma sinv0 : sinv g0.
+Lemma sinv_init oiws : sinv (ginit oiws).
 Proof. constructor; cbn; auto; try lia; try (intros; discriminate). Qed.
+Lemma sinv0 : sinv g0.
+Proof. apply sinv_init. Qed.
 
 Lemma del_forall sid l m : Forall (fun e : Z * Z => fst e <= m) l -> Forall (fun e => fst e <= m) (del_stream sid l).
 Proof.
@@ -342,6 +435,34 @@ Proof. intros [A A' B C D] H1 H2. constructor; cbn; auto. Qed.
 Lemma sinv_now g t : sinv g -> sinv (set_now g t).
 Proof. intros [A A' B C D]. constructor; cbn; auto. Qed.
 
+Lemma sinv_win g sid d : sinv g -> sinv (with_win g sid d).
+Proof. intros [A A' B C D]. constructor; cbn; auto. Qed.
+Lemma set_forall sid s l m : Forall (fun e : Z * Z => fst e <= m) l -> Forall (fun e => fst e <= m) (set_stream sid s l).
+Proof.
+  induction l as [|[i s0] l IH]; cbn [set_stream]; intros H; [constructor|].
+  inversion H; subst. destruct (Z.eqb_spec i sid); constructor; auto.
+Qed.
+Lemma set_fst sid s l : map fst (set_stream sid s l) = map fst l.
+Proof.
+  induction l as [|[i s0] l IH]; cbn [set_stream map]; [reflexivity|].
+  destruct (i =? sid); cbn [map fst]; [reflexivity|]. rewrite IH. reflexivity.
+Qed.
+
+Lemma sinv_finish g sid wr : sinv g -> sinv (fst (finish g sid wr)).
+Proof.
+  intros I. unfold finish. destruct (find_stream sid (g_active g)) as [s|]; [|exact I].
+  destruct (is_done s); [exact I|].
+  assert (Gone : sinv (loopy_check (upd_active g (del_stream sid (g_active g))))).
+  { apply sinv_loopy_check, sinv_upd; auto.
+    - intros H. rewrite (si_loopy _ I H). reflexivity.
+    - apply del_forall, I. }
+  destruct wr as [n|]; [|exact Gone].
+  destruct (0 <=? window g sid - (5 + n)); [exact Gone|]. cbn [fst].
+  apply sinv_win, sinv_upd; auto.
+  - intros H. rewrite (si_loopy _ I H). reflexivity.
+  - apply set_forall, I.
+Qed.
+
 Lemma sinv_final g : sinv g -> sinv (fst (final_goaway g)).
 Proof.
   intros I. unfold final_goaway. destruct (g_closed g || negb (g_loopy g) || negb (g_phase g =? 1)); [exact I|].
@@ -356,7 +477,8 @@ Definition legal (g : gstate) (o : sop) : Prop :=
 Lemma sinv_step maxs g o : sinv g -> legal g o -> sinv (fst (sstep maxs g o)).
 Proof.
   intros I L. unfold sstep. destruct (g_closed g); [exact I|].
-  destruct o as [sid ended|sid|sid| | |ms]; cbn [legal] in L.
+  destruct o as [sid ended|sid|sid| | |ms|sid n|sid inc]; cbn [legal] in L;
+    [| | apply sinv_finish, I | | | | apply sinv_finish, I | ].
   - destruct I as [A A' B C D].
     assert (C' : Forall (fun e : Z * Z => fst e <= sid) (g_active g)).
     { eapply Forall_impl; [|exact C]. cbn. intros; lia. }
@@ -367,10 +489,6 @@ Proof.
     + rewrite <- R. exact B.
     + apply Forall_app. split; [exact C'|constructor; [cbn; lia|constructor]].
   - apply sinv_loopy_check, sinv_upd; auto.
-    + intros H. rewrite (si_loopy _ I H). reflexivity.
-    + apply del_forall, I.
-  - destruct (find_stream sid (g_active g)); [|exact I]. cbn [fst].
-    apply sinv_loopy_check, sinv_upd; auto.
     + intros H. rewrite (si_loopy _ I H). reflexivity.
     + apply del_forall, I.
   - destruct (negb (g_phase g =? 0) || negb (g_loopy g)) eqn:E; [exact I|]. cbn [fst].
@@ -388,6 +506,11 @@ Proof.
     + destruct (negb (g_loopy g) && (g_linger g <=? g_now g + ms)) eqn:E.
       * apply andb_true_iff in E as [E _]. apply negb_true_iff in E. apply sinv_close; [apply sinv_now, I|exact E].
       * apply sinv_now, I.
+  - destruct (find_stream sid (g_active g)) as [s|]; [|exact I].
+    destruct (is_done s && (0 <=? window g sid + inc)); cbn [fst]; [|apply sinv_win, I].
+    apply sinv_loopy_check, sinv_upd; auto.
+    + intros H. rewrite (si_loopy _ I H). reflexivity.
+    + apply del_forall, I.
 Qed.
 
 (* ---- what the final GOAWAY says, and what happens after it ---- *)
@@ -409,19 +532,41 @@ Lemma loopy_check_same g : g_active (loopy_check g) = g_active g /\ g_handled (l
   g_closed (loopy_check g) = g_closed g.
 Proof. unfold loopy_check. destruct (_ && _ && _); cbn; auto 10. Qed.
 
+Lemma in_del_fst sid l x : In x (map fst (del_stream sid l)) -> In x (map fst l).
+Proof.
+  intros H. apply in_map_iff in H as (e & <- & H). apply in_map, (in_del sid), H.
+Qed.
+
+Lemma finish_same g sid wr :
+  g_reach (fst (finish g sid wr)) = g_reach g /\ g_handled (fst (finish g sid wr)) = g_handled g /\
+  g_max (fst (finish g sid wr)) = g_max g /\ g_phase (fst (finish g sid wr)) = g_phase g /\
+  (forall x, In x (map fst (g_active (fst (finish g sid wr)))) -> In x (map fst (g_active g))).
+Proof.
+  unfold finish. destruct (find_stream sid (g_active g)) as [s|]; [|cbn [fst]; auto 10].
+  destruct (is_done s); [cbn [fst]; auto 10|].
+  destruct (loopy_check_same (upd_active g (del_stream sid (g_active g)))) as (A & B & C & D & E & _).
+  assert (Gone : forall ev, let r := (loopy_check (upd_active g (del_stream sid (g_active g))), ev : list Z) in
+            g_reach (fst r) = g_reach g /\ g_handled (fst r) = g_handled g /\ g_max (fst r) = g_max g /\
+            g_phase (fst r) = g_phase g /\
+            (forall x, In x (map fst (g_active (fst r))) -> In x (map fst (g_active g)))).
+  { intros ev. cbn [fst]. rewrite A, B, C, D, E. cbn. repeat split; auto. intros x. apply in_del_fst. }
+  destruct wr as [n|]; [|apply Gone].
+  destruct (0 <=? window g sid - (5 + n)); [apply Gone|].
+  cbn. repeat split; auto. intros x. rewrite set_fst. auto.
+Qed.
+
 (* once the final GOAWAY is out (state draining) no stream is ever accepted again *)
 Theorem no_accept_after_final maxs g o : g_reach g = false ->
   let g' := fst (sstep maxs g o) in
-  g_reach g' = false /\ g_handled g' = g_handled g /\ (forall x, In x (g_active g') -> In x (g_active g)).
+  g_reach g' = false /\ g_handled g' = g_handled g /\
+  (forall x, In x (map fst (g_active g')) -> In x (map fst (g_active g))).
 Proof.
   intros R. cbv zeta. unfold sstep. destruct (g_closed g); [auto|].
-  destruct o as [sid ended|sid|sid| | |ms].
+  destruct o as [sid ended|sid|sid| | |ms|sid n|sid inc].
   - rewrite R. cbn. auto.
   - destruct (loopy_check_same (upd_active g (del_stream sid (g_active g)))) as (A & B & C & _). cbn [fst].
-    rewrite A, B, C. cbn. repeat split; auto. intros x. apply in_del.
-  - destruct (find_stream sid (g_active g)); [|auto]. cbn [fst].
-    destruct (loopy_check_same (upd_active g (del_stream sid (g_active g)))) as (A & B & C & _).
-    rewrite A, B, C. cbn. repeat split; auto. intros x. apply in_del.
+    rewrite A, B, C. cbn. repeat split; auto. intros x. apply in_del_fst.
+  - destruct (finish_same g sid None) as (A & B & _ & _ & C). rewrite A, B. auto.
   - destruct (negb (g_phase g =? 0) || negb (g_loopy g)); cbn; auto.
   - unfold final_goaway. destruct (g_closed g || negb (g_loopy g) || negb (g_phase g =? 1)); [auto|]. cbn [fst].
     match goal with |- context [loopy_check ?x] => destruct (loopy_check_same x) as (A & B & C & _) end.
@@ -438,27 +583,53 @@ Proof.
       destruct (negb (g_loopy g1) && (g_linger g1 <=? g_now g + ms)); cbn; rewrite ?F1, ?F2, ?F3; cbn; repeat split; auto.
       intros x [].
     + destruct (negb (g_loopy g) && (g_linger g <=? g_now g + ms)); cbn; repeat split; auto. intros x [].
+  - destruct (finish_same g sid (Some n)) as (A & B & _ & _ & C). rewrite A, B. auto.
+  - destruct (find_stream sid (g_active g)) as [s|]; [|auto].
+    destruct (is_done s && (0 <=? window g sid + inc)); cbn [fst]; [|cbn; auto].
+    destruct (loopy_check_same (upd_active g (del_stream sid (g_active g)))) as (A & B & C & _).
+    rewrite A, B, C. cbn. repeat split; auto. intros x. apply in_del_fst.
 Qed.
 
-(* drain, acks, time and other streams never take an accepted stream away: only its own
-   completion (application WriteStatus or client RST_STREAM) removes it *)
+Lemma in_set_other sid k s s' l : k <> sid -> In (sid, s) l -> In (sid, s) (set_stream k s' l).
+Proof.
+  intros Hk. induction l as [|[i s0] l IH]; cbn [set_stream]; [intros []|].
+  intros [H|H].
+  - inversion H; subst. destruct (Z.eqb_spec sid k); [congruence|left; reflexivity].
+  - destruct (i =? k); right; auto.
+Qed.
+Lemma in_del_other sid k s l : k <> sid -> In (sid, s) l -> In (sid, s) (del_stream k l).
+Proof.
+  intros Hk H. unfold del_stream. apply filter_In. split; [exact H|]. cbn.
+  destruct (Z.eqb_spec sid k); [congruence|reflexivity].
+Qed.
+Lemma finish_keeps g k wr sid s : k <> sid -> In (sid, s) (g_active g) -> In (sid, s) (g_active (fst (finish g k wr))).
+Proof.
+  intros Hk H. unfold finish. destruct (find_stream k (g_active g)) as [s0|]; [|exact H].
+  destruct (is_done s0); [exact H|].
+  assert (Gone : In (sid, s) (g_active (loopy_check (upd_active g (del_stream k (g_active g)))))).
+  { destruct (loopy_check_same (upd_active g (del_stream k (g_active g)))) as (A & _). rewrite A. cbn.
+    apply in_del_other; assumption. }
+  destruct wr as [n|]; [|exact Gone].
+  destruct (0 <=? window g k - (5 + n)); [exact Gone|]. cbn. apply in_set_other; assumption.
+Qed.
+
+(* drain, acks, time and other streams never take an accepted stream away (nor change its state):
+   only its own completion (application WriteStatus, or the WINDOW_UPDATE that lets the rest of
+   its response out) or the client's RST_STREAM removes it *)
 Theorem server_serves_all maxs g o sid s : sinv g ->
   In (sid, s) (g_active g) -> o <> SRst sid -> o <> SFinish sid ->
+  (forall n, o <> SWriteFinish sid n) -> (forall inc, o <> SWindow sid inc) ->
   In (sid, s) (g_active (fst (sstep maxs g o))).
 Proof.
-  intros I H N1 N2. unfold sstep. destruct (g_closed g); [exact H|].
+  intros I H N1 N2 N3 N4. unfold sstep. destruct (g_closed g); [exact H|].
   assert (L : g_loopy g = true).
   { destruct (g_loopy g) eqn:E; [reflexivity|]. rewrite (si_loopy _ I E) in H. destruct H. }
-  assert (D : forall k, k <> sid -> In (sid, s) (del_stream k (g_active g))).
-  { intros k Hk. unfold del_stream. apply filter_In. split; [exact H|]. cbn. destruct (Z.eqb_spec sid k); [congruence|reflexivity]. }
-  destruct o as [k ended|k|k| | |ms].
+  destruct o as [k ended|k|k| | |ms|k n|k inc].
   - destruct (negb (g_reach g)); [exact H|]. destruct (maxs <=? lenZ (g_active g)); [exact H|].
     cbn. apply in_or_app. left. exact H.
   - cbn [fst]. destruct (loopy_check_same (upd_active g (del_stream k (g_active g)))) as (A & _). rewrite A. cbn.
-    apply D. congruence.
-  - destruct (find_stream k (g_active g)); [|exact H]. cbn [fst].
-    destruct (loopy_check_same (upd_active g (del_stream k (g_active g)))) as (A & _). rewrite A. cbn.
-    apply D. congruence.
+    apply in_del_other; [congruence|exact H].
+  - apply finish_keeps; [congruence|exact H].
   - destruct (negb (g_phase g =? 0) || negb (g_loopy g)); exact H.
   - destruct (server_final_id g I) as [E|(_ & _ & _ & E)].
     + unfold final_goaway in *. destruct (g_closed g || negb (g_loopy g) || negb (g_phase g =? 1)); [exact H|discriminate].
@@ -475,6 +646,103 @@ Proof.
     + destruct (F (g_timer g)) as [F1 F2]. destruct (final_goaway (set_now g (g_timer g))) as [g1 ev1]. cbn [fst] in *.
       destruct (g_loopy g1) eqn:L1; [|exfalso; auto]. cbn [negb andb fst set_now g_active]. rewrite F1. exact H.
     + rewrite L. cbn. exact H.
+  - apply finish_keeps; [intros ->; apply (N3 n); reflexivity|exact H].
+  - assert (Hk : k <> sid) by (intros ->; apply (N4 inc); reflexivity).
+    destruct (find_stream k (g_active g)) as [s0|]; [|exact H].
+    destruct (is_done s0 && (0 <=? window g k + inc)); cbn [fst]; [|exact H].
+    destruct (loopy_check_same (upd_active g (del_stream k (g_active g)))) as (A & _). rewrite A. cbn.
+    apply in_del_other; assumption.
+Qed.
+
+(* "serves every stream up to that id to completion": an accepted stream leaves t.activeStreams
+   only by the client's RST_STREAM or in a step that puts its END_STREAM trailers (grpc-status)
+   on the wire - also when its handler returned long before, while its response was waiting for
+   flow-control window, and also while the transport is draining *)
+Lemma trailers_first sid http rst rest : http < 1000 ->
+  has_trailers (length (ev_trailers sid http rst ++ rest)) sid (ev_trailers sid http rst ++ rest) = true.
+Proof.
+  intros Hh. unfold ev_trailers. cbn [app length has_trailers].
+  rewrite (Z.eqb_refl sid). destruct (Z.ltb_spec http 1000); [reflexivity|lia].
+Qed.
+Lemma finish_completes g sid wr s : In (sid, s) (g_active g) ->
+  In sid (map fst (g_active (fst (finish g sid wr)))) \/
+  has_trailers (length (snd (finish g sid wr))) sid (snd (finish g sid wr)) = true.
+Proof.
+  intros H. pose proof (in_map fst _ _ H) as Hf. cbn [fst] in Hf.
+  unfold finish. destruct (find_stream sid (g_active g)) as [s0|]; [|left; exact Hf].
+  destruct (is_done s0); [left; exact Hf|].
+  destruct wr as [n|].
+  - destruct (0 <=? window g sid - (5 + n)).
+    + right. cbn [snd]. unfold ev_trailers.
+      destruct (s0 =? 0); cbn [app length has_trailers]; rewrite (Z.eqb_refl sid); reflexivity.
+    + left. cbn. rewrite set_fst. exact Hf.
+  - right. cbn [snd]. pose proof (trailers_first sid 200 (s0 =? 0) [] ltac:(lia)) as T.
+    rewrite app_nil_r in T. exact T.
+Qed.
+
+Theorem server_leaves_only_completed maxs g o sid s : sinv g ->
+  In (sid, s) (g_active g) -> o <> SRst sid ->
+  let r := sstep maxs g o in
+  In sid (map fst (g_active (fst r))) \/ has_trailers (length (snd r)) sid (snd r) = true.
+Proof.
+  intros I H N1. cbv zeta.
+  assert (Keep : o <> SFinish sid -> (forall n, o <> SWriteFinish sid n) -> (forall inc, o <> SWindow sid inc) ->
+                 In sid (map fst (g_active (fst (sstep maxs g o))))).
+  { intros N2 N3 N4. apply (in_map fst _ _ (server_serves_all maxs g o sid s I H N1 N2 N3 N4)). }
+  destruct o as [k ended|k|k| | |ms|k n|k inc]; try (left; apply Keep; intros; discriminate).
+  - destruct (Z.eq_dec k sid) as [->|Hk]; [|left; apply Keep; intros; congruence].
+    unfold sstep. destruct (g_closed g); [left; apply (in_map fst _ _ H)|]. apply (finish_completes g sid None s H).
+  - destruct (Z.eq_dec k sid) as [->|Hk]; [|left; apply Keep; intros; congruence].
+    unfold sstep. destruct (g_closed g); [left; apply (in_map fst _ _ H)|]. apply (finish_completes g sid (Some n) s H).
+  - destruct (Z.eq_dec k sid) as [->|Hk]; [|left; apply Keep; intros; congruence].
+    unfold sstep. destruct (g_closed g); [left; apply (in_map fst _ _ H)|].
+    destruct (find_stream sid (g_active g)) as [s0|]; [|left; apply (in_map fst _ _ H)].
+    destruct (is_done s0 && (0 <=? window g sid + inc)); cbn [fst snd].
+    + right. pose proof (trailers_first sid (-1) (s0 =? 3) [] ltac:(lia)) as T. rewrite app_nil_r in T. exact T.
+    + left. apply (in_map fst _ _ H).
+Qed.
+
+(* the connection is closed only when no stream is active: not while a finished stream's response
+   and status are still waiting in loopy *)
+Lemma finish_closed g sid wr : g_closed (fst (finish g sid wr)) = g_closed g.
+Proof.
+  unfold finish. destruct (find_stream sid (g_active g)) as [s|]; [|reflexivity].
+  destruct (is_done s); [reflexivity|].
+  destruct (loopy_check_same (upd_active g (del_stream sid (g_active g)))) as (_ & _ & _ & _ & _ & A).
+  destruct wr as [n|]; [|exact A]. destruct (0 <=? window g sid - (5 + n)); [exact A|reflexivity].
+Qed.
+Theorem server_close_only_when_idle maxs g o : sinv g -> g_closed g = false ->
+  g_closed (fst (sstep maxs g o)) = true -> g_active g = [].
+Proof.
+  intros I Cl. unfold sstep. rewrite Cl.
+  assert (LC : forall x, g_closed x = false -> g_closed (loopy_check x) = true -> g_active g = []).
+  { intros x Hx Hc. destruct (loopy_check_same x) as (_ & _ & _ & _ & _ & A). rewrite A, Hx in Hc. discriminate. }
+  assert (FG : forall g0, g_closed g0 = false -> g_closed (fst (final_goaway g0)) = false).
+  { intros g0 H0. unfold final_goaway. destruct (g_closed g0 || negb (g_loopy g0) || negb (g_phase g0 =? 1)); [exact H0|].
+    cbn [fst]. match goal with |- context [loopy_check ?x] => destruct (loopy_check_same x) as (_ & _ & _ & _ & _ & A) end.
+    rewrite A. reflexivity. }
+  destruct o as [sid ended|sid|sid| | |ms|sid n|sid inc].
+  - destruct (negb (g_reach g)); [cbn; discriminate|]. destruct (maxs <=? lenZ (g_active g)); cbn; discriminate.
+  - cbn [fst]. apply LC. exact Cl.
+  - rewrite finish_closed, Cl. discriminate.
+  - destruct (negb (g_phase g =? 0) || negb (g_loopy g)); cbn; [rewrite Cl|]; discriminate.
+  - rewrite (FG g Cl). discriminate.
+  - destruct ((g_phase g =? 1) && (g_timer g <=? g_now g + ms)).
+    + pose proof (sinv_final _ (sinv_now g (g_timer g) I)) as I1.
+      pose proof (FG (set_now g (g_timer g)) Cl) as C1.
+      assert (A1 : g_active (fst (final_goaway (set_now g (g_timer g)))) = g_active g).
+      { destruct (server_final_id _ (sinv_now g (g_timer g) I)) as [E|(_ & _ & _ & E)]; [|exact E].
+        unfold final_goaway in *. destruct (g_closed (set_now g (g_timer g)) || negb (g_loopy (set_now g (g_timer g))) || negb (g_phase (set_now g (g_timer g)) =? 1)); [reflexivity|discriminate]. }
+      destruct (final_goaway (set_now g (g_timer g))) as [g1 ev1]. cbn [fst] in *.
+      destruct (negb (g_loopy g1) && (g_linger g1 <=? g_now g + ms)) eqn:E.
+      * intros _. apply andb_true_iff in E as [E _]. apply negb_true_iff in E. rewrite <- A1. apply (si_loopy _ I1 E).
+      * cbn. rewrite C1. discriminate.
+    + destruct (negb (g_loopy g) && (g_linger g <=? g_now g + ms)) eqn:E.
+      * intros _. apply andb_true_iff in E as [E _]. apply negb_true_iff in E. apply (si_loopy _ I E).
+      * cbn. rewrite Cl. discriminate.
+  - rewrite finish_closed, Cl. discriminate.
+  - destruct (find_stream sid (g_active g)) as [s|]; [|cbn; rewrite Cl; discriminate].
+    destruct (is_done s && (0 <=? window g sid + inc)); cbn [fst]; [apply LC; exact Cl|cbn; rewrite Cl; discriminate].
 Qed.
 
 (* "a final GOAWAY whose id is the highest stream id it accepted": the id is maxStreamID, which
@@ -494,16 +762,62 @@ Proof. intros ->. unfold okc. cbn. rewrite Z.eqb_refl, orb_true_r. reflexivity. 
 
 Definition accinv (g : gstate) (acc : list Z) : Prop := Forall (fun a => a <= g_max g) acc.
 
-Lemma sclause_ok maxs g acc o : sinv g -> legal g o -> accinv g acc ->
-  let r := sstep maxs g o in
-  forallb okc (fst (sclause g acc o (shdr (fst r) ++ snd r))) = true /\
-  accinv (fst r) (snd (sclause g acc o (shdr (fst r) ++ snd r))).
+(* a step that invokes no handler, leaves maxStreamID alone and writes neither GOAWAY nor closes *)
+Lemma quiet_ok g g' acc o ev :
+  match o with SHeaders _ _ => False | _ => True end ->
+  g_handled g' = g_handled g -> g_max g' = g_max g ->
+  find_final (length ev) ev = None -> has_close (length ev) ev = false -> accinv g acc ->
+  forallb okc (fst (sclause_base g acc o (shdr g' ++ ev))) = true /\
+  accinv g' (snd (sclause_base g acc o (shdr g' ++ ev))).
 Proof.
-  intros I L A. cbv zeta. unfold shdr. cbn [app]. unfold sclause.
-  pose proof (si_maxlt _ I) as Mx. unfold sstep. destruct (g_closed g) eqn:Cl.
-  { cbn [fst snd length find_final has_close]. rewrite Z.ltb_irrefl.
-    split; [|destruct o; exact A]. cbn [forallb]. rewrite okc_c9_same by reflexivity. reflexivity. }
-  destruct o as [sid ended|sid|sid| | |ms]; cbn [legal] in L.
+  intros Ho Hh Hm Hf Hc A. unfold shdr, sclause_base. cbn [app]. rewrite Hh, Z.ltb_irrefl, Hf, Hc. split.
+  - cbn [fst forallb negb orb]. rewrite okc_c9_same by reflexivity. reflexivity.
+  - unfold accinv in *. rewrite Hm. destruct o; try contradiction; exact A.
+Qed.
+Lemma finish_events g sid wr :
+  find_final (length (snd (finish g sid wr))) (snd (finish g sid wr)) = None /\
+  has_close (length (snd (finish g sid wr))) (snd (finish g sid wr)) = false.
+Proof.
+  unfold finish. destruct (find_stream sid (g_active g)) as [s|]; [|split; reflexivity].
+  destruct (is_done s); [split; reflexivity|]. unfold ev_trailers.
+  destruct wr as [n|]; [destruct (0 <=? window g sid - (5 + n))|]; cbn [snd]; destruct (s =? 0); split; reflexivity.
+Qed.
+
+Lemma clause11_ok maxs g o :
+  forallb okc (clause11 g o (shdr (fst (sstep maxs g o)) ++ snd (sstep maxs g o))) = true.
+Proof.
+  unfold clause11, flush_due, sstep. destruct (g_closed g); [reflexivity|].
+  destruct o as [sid ended|sid|sid| | |ms|sid n|sid inc]; try reflexivity.
+  destruct (find_stream sid (g_active g)) as [s|]; [|reflexivity].
+  destruct (is_done s && (0 <=? window g sid + inc)); [|reflexivity].
+  cbn [fst snd]. unfold shdr, ev_trailers.
+  destruct (s =? 3); cbn [app length skipn has_trailers forallb]; rewrite (Z.eqb_refl sid); reflexivity.
+Qed.
+
+Lemma sclause_base_ok maxs g acc o : sinv g -> legal g o -> accinv g acc ->
+  let r := sstep maxs g o in
+  forallb okc (fst (sclause_base g acc o (shdr (fst r) ++ snd r))) = true /\
+  accinv (fst r) (snd (sclause_base g acc o (shdr (fst r) ++ snd r))).
+Proof.
+  intros I L A. cbv zeta.
+  assert (Fin : forall sid wr, match o with SHeaders _ _ => False | _ => True end ->
+            forallb okc (fst (sclause_base g acc o (shdr (fst (finish g sid wr)) ++ snd (finish g sid wr)))) = true /\
+            accinv (fst (finish g sid wr)) (snd (sclause_base g acc o (shdr (fst (finish g sid wr)) ++ snd (finish g sid wr))))).
+  { intros sid wr Ho. destruct (finish_same g sid wr) as (_ & Fh & Fm & _). destruct (finish_events g sid wr) as [Ff Fc].
+    apply quiet_ok; auto. }
+  destruct o as [sid ended|sid|sid| | |ms|sid n|sid inc];
+    [| | unfold sstep; destruct (g_closed g); [apply quiet_ok; cbn; auto|apply Fin; exact Logic.I] | | | |
+     unfold sstep; destruct (g_closed g); [apply quiet_ok; cbn; auto|apply Fin; exact Logic.I] |
+     unfold sstep; destruct (g_closed g); [apply quiet_ok; cbn; auto|] ].
+  6:{ destruct (find_stream sid (g_active g)) as [s|]; [|apply quiet_ok; cbn; auto].
+      destruct (is_done s && (0 <=? window g sid + inc)); cbn [fst snd]; [|apply quiet_ok; cbn; auto].
+      destruct (loopy_check_same (upd_active g (del_stream sid (g_active g)))) as (_ & B & _ & D & _).
+      apply quiet_ok; cbn; auto; unfold ev_trailers; destruct (s =? 3); reflexivity. }
+  all: unfold shdr; cbn [app]; unfold sclause_base.
+  all: pose proof (si_maxlt _ I) as Mx; unfold sstep; destruct (g_closed g) eqn:Cl;
+    [cbn [fst snd length find_final has_close]; rewrite ?Z.ltb_irrefl;
+     split; [|exact A]; cbn [forallb]; rewrite okc_c9_same by reflexivity; reflexivity|].
+  all: cbn [legal] in L.
   - (* HEADERS *)
     destruct (negb (g_reach g)) eqn:R.
     + cbn [fst snd length find_final has_close g_handled g_max]. rewrite Z.ltb_irrefl. split.
@@ -523,13 +837,6 @@ Proof.
     cbn [fst snd]. destruct (loopy_check_same (upd_active g (del_stream sid (g_active g)))) as (_ & B & _ & D & _).
     rewrite B. unfold accinv in *. rewrite D. cbn [upd_active g_handled g_max length find_final has_close]. rewrite ?Z.ltb_irrefl. split; [|exact A].
     cbn [forallb]. rewrite okc_c9_same by reflexivity. reflexivity.
-  - (* WriteStatus *)
-    destruct (find_stream sid (g_active g)) as [s|].
-    + cbn [fst snd]. destruct (loopy_check_same (upd_active g (del_stream sid (g_active g)))) as (_ & B & _ & D & _).
-      rewrite B. unfold accinv in *. rewrite D. cbn [upd_active g_handled g_max]. rewrite ?Z.ltb_irrefl. split; [|exact A].
-      destruct (s =? 0); cbn; rewrite Z.eqb_refl, orb_true_r; reflexivity.
-    + cbn [fst snd length find_final has_close]. rewrite ?Z.ltb_irrefl. split; [|exact A].
-      cbn [forallb]. rewrite okc_c9_same by reflexivity. reflexivity.
   - (* Drain *)
     destruct (negb (g_phase g =? 0) || negb (g_loopy g)).
     + cbn [fst snd length find_final has_close]. rewrite ?Z.ltb_irrefl. split; [|exact A].
@@ -584,20 +891,28 @@ Proof.
         cbn [forallb]. rewrite okc_c9_same by reflexivity. reflexivity.
 Qed.
 
+Lemma sclause_ok maxs g acc o : sinv g -> legal g o -> accinv g acc ->
+  let r := sstep maxs g o in
+  forallb okc (fst (sclause g acc o (shdr (fst r) ++ snd r))) = true /\
+  accinv (fst r) (snd (sclause g acc o (shdr (fst r) ++ snd r))).
+Proof.
+  intros I L A. cbv zeta. destruct (sclause_base_ok maxs g acc o I L A) as [B1 B2]. cbv zeta in B1, B2.
+  unfold sclause. cbn [fst snd]. split; [|exact B2].
+  rewrite forallb_app, B1. apply clause11_ok.
+Qed.
+
 Lemma smax_step maxs g o : legal g o ->
   g_max g <= g_max (fst (sstep maxs g o)) /\
   (forall m, g_max g <= m -> match o with SHeaders sid _ => sid <= m | _ => True end ->
              g_max (fst (sstep maxs g o)) <= m).
 Proof.
   intros L. unfold sstep. destruct (g_closed g); [cbn [fst]; split; [lia|auto]|].
-  destruct o as [sid ended|sid|sid| | |ms]; cbn [legal] in L.
+  destruct o as [sid ended|sid|sid| | |ms|sid n|sid inc]; cbn [legal] in L.
   - destruct (negb (g_reach g)); [cbn; split; [lia|intros m _ Hm; exact Hm]|].
     destruct (maxs <=? lenZ (g_active g)); cbn; (split; [lia|intros m _ Hm; exact Hm]).
   - cbn [fst]. destruct (loopy_check_same (upd_active g (del_stream sid (g_active g)))) as (_ & _ & _ & D & _).
     rewrite D. cbn. split; [lia|auto].
-  - destruct (find_stream sid (g_active g)); [|cbn [fst]; split; [lia|auto]]. cbn [fst].
-    destruct (loopy_check_same (upd_active g (del_stream sid (g_active g)))) as (_ & _ & _ & D & _).
-    rewrite D. cbn. split; [lia|auto].
+  - destruct (finish_same g sid None) as (_ & _ & D & _). rewrite D. split; [lia|auto].
   - destruct (negb (g_phase g =? 0) || negb (g_loopy g)); cbn; split; auto; lia.
   - unfold final_goaway. destruct (g_closed g || negb (g_loopy g) || negb (g_phase g =? 1)); [cbn [fst]; split; [lia|auto]|]. cbn [fst].
     match goal with |- context [loopy_check ?x] => destruct (loopy_check_same x) as (_ & _ & _ & D & _) end.
@@ -610,6 +925,11 @@ Proof.
     + pose proof (F (set_now g (g_timer g))) as F1. destruct (final_goaway (set_now g (g_timer g))) as [g1 ev1]. cbn [fst] in F1.
       destruct (negb (g_loopy g1) && (g_linger g1 <=? g_now g + ms)); cbn; rewrite F1; cbn; split; auto; lia.
     + destruct (negb (g_loopy g) && (g_linger g <=? g_now g + ms)); cbn; split; auto; lia.
+  - destruct (finish_same g sid (Some n)) as (_ & _ & D & _). rewrite D. split; [lia|auto].
+  - destruct (find_stream sid (g_active g)) as [s|]; [|cbn [fst]; split; [lia|auto]].
+    destruct (is_done s && (0 <=? window g sid + inc)); cbn [fst]; [|cbn; split; [lia|auto]].
+    destruct (loopy_check_same (upd_active g (del_stream sid (g_active g)))) as (_ & _ & _ & D & _).
+    rewrite D. cbn. split; [lia|auto].
 Qed.
 
 Lemma decode_sop_spec last w o last' : decode_sop last w = Some (o, last') ->
@@ -648,19 +968,18 @@ Qed.
 Definition wf (cfg : word) (ops : list word) : bool :=
   match run cfg ops with Some _ => true | None => false end.
 
+Lemma crun_evs c os : map CF.evs (map CF.flatten (crun_ops c os)) = crun_ops c os.
+Proof. rewrite map_map. rewrite (map_ext _ (fun x => x) CP.evs_flatten), map_id. reflexivity. Qed.
+
 Theorem model_trace_holds cfg ops : wf cfg ops = true ->
   exists obs, run cfg ops = Some obs /\ holds_b cfg ops obs = true.
 Proof.
   unfold wf. destruct (run cfg ops) as [obs|] eqn:R; [|discriminate]. intros _. exists obs. split; [reflexivity|].
   unfold run in R. unfold holds_b, clauses. fold okc.
-  destruct cfg as [|m [|n [|x y]]]; try discriminate.
-  - destruct m as [|p|p]; try discriminate; try (destruct p; discriminate). unfold CF.run in R.
-    destruct (CF.decode_ops ops) as [os|]; [|discriminate]. inversion R; subst.
-    rewrite map_map. rewrite (map_ext _ (fun x => x) CP.evs_flatten), map_id.
-    apply cclauses_run. intros H. discriminate.
-  - destruct m as [|[p|p|]|p]; try discriminate; try (destruct p; discriminate).
-    destruct ((0 <=? n) && (n <=? max_u32)); [|discriminate].
+  destruct (is_client cfg).
+  - destruct (decode_cops ops) as [os|]; [|discriminate]. inversion R; subst.
+    rewrite crun_evs. apply cclauses_run. intros H. discriminate.
+  - destruct (decode_scfg cfg) as [[maxs oiws]|]; [|discriminate].
     destruct (decode_sops 0 ops) as [os|] eqn:D; [|discriminate]. inversion R; subst.
-    apply (sclauses_run n ops os 0 g0 [] D sinv0); [cbn; lia|constructor].
-  - destruct m as [|[p|p|]|p]; try discriminate; destruct p; discriminate.
+    apply (sclauses_run maxs ops os 0 (ginit oiws) [] D (sinv_init oiws)); [cbn; lia|constructor].
 Qed.
